@@ -372,6 +372,8 @@ func dispatchOps() []Op {
 		{K: "back", Kind: "onStatus"}, // server -> client command that is not a response
 		// chunk-size interplay: packets whose payload is an exact multiple of the sender's chunk size
 		{K: "ctl", Kind: "scs4"}, {K: "ctl", Kind: "scs5"}, {K: "cmd", Kind: "publish128"}, {K: "back", Kind: "scs1"},
+		// transaction ids are AMF0 numbers: a non-integral id next to an integral one must not share its slot
+		{K: "req", Kind: "createStream", Tid: 2.5}, {K: "res", Tid: 2.5},
 	}
 }
 
